@@ -49,8 +49,12 @@ def collect(rep, names, tier, *, act_filter=None, max_pairs=None, seed=0, fault_
                 for ch in common.chunks(states, 8):
                     jobs.append((name, ch, acts))
         rep.mark("mc")
-        events = [e for o in pipeline.pmap(D.run_table, jobs) for e in o]
-        rep.mark("drive")
+        scnp = os.path.join(tmp, "scn.json")
+        with open(scnp, "w") as f:
+            json.dump(scn_tables, f)
+        env = {"VERIF_SCN": scnp}
+        result = pipeline.run_judged(_table, jobs, "J_SpecClass", replay_fn=_replay, key_fn=_key, nontrivial_fn=_nontrivial, env=env, chunk=12000)
+        rep.mark("drive+judge")
         if fault_pairs:
             # crash points: a deterministic sample of copy-on-write (state, action) pairs per scenario, each aborted at its executed library lines
             import random
@@ -62,28 +66,47 @@ def collect(rep, names, tier, *, act_filter=None, max_pairs=None, seed=0, fault_
                 pairs = [(rnd.choice(states), rnd.choice(cow)) for _ in range(fault_pairs)] if cow and states else []
                 for ch in common.chunks(pairs, 2):
                     fjobs.append((name, ch, fault_stride))
-            fevents = [e for o in pipeline.pmap(D.run_faults, fjobs) for e in o]
-            rep.coverage["aborted_executions"] = len(fevents)
+            fr = pipeline.run_judged(_faults, fjobs, "J_SpecClass", replay_fn=_replay, key_fn=_key, nontrivial_fn=_always, env=env, chunk=12000)
+            rep.coverage["aborted_executions"] = fr["n"]
             rep.coverage["fault_line_stride"] = fault_stride
-            events += fevents
+            result["n"] += fr["n"]
+            result["distinct"] += fr["distinct"]
+            result["bad"] += fr["bad"]
             rep.mark("faults")
-        scnp = os.path.join(tmp, "scn.json")
-        with open(scnp, "w") as f:
-            json.dump(scn_tables, f)
-        res = tla.judge("J_SpecClass", events, chunk=12000, jobs=common.jobs(), env={"VERIF_SCN": scnp}, heap="3g")
-        rep.mark("judge")
-        return events, res
+        return result
     finally:
         shutil.rmtree(tmp, ignore_errors=True)
 
 
-def report_clauses(rep, events, res, prefixes):
-    for gi, clause, detail in res["bad"]:
-        if not clause.startswith(tuple(prefixes)):
-            continue
-        e = events[gi]
-        a = e["a"]
-        replay = {"family": "specclass", "scn": e["scn"], "a": a, "pre": e["pre"], "recv_post": e["recv_post"], "res": e["res"],
-                  "result": e["result"], "same": e["same"], "model_allows": detail}
-        brief = {k: a[k] for k in ("op", "attr", "inplace") if k in a}
-        rep.violation(clause, replay, f"scn={e['scn']} {brief} res={e['res']} model={detail}")
+def _table(job):
+    return D.run_table(job)
+
+
+def _faults(job):
+    return D.run_faults(job)
+
+
+def _replay(e, detail):
+    a = e["a"]
+    brief = {k: a[k] for k in ("op", "attr", "inplace") if k in a}
+    return ({"family": "specclass", "scn": e["scn"], "a": a, "pre": e["pre"], "recv_post": e["recv_post"], "res": e["res"],
+             "result": e["result"], "same": e["same"], "model_allows": detail, "fault_at": e.get("fault_at"), "fault_loc": e.get("fault_loc")},
+            f"scn={e['scn']} {brief} res={e['res']} model={detail}")
+
+
+def _key(e):
+    return [e["scn"], e["pre"], e["a"], e.get("fault_at")]
+
+
+def _always(e):
+    return True
+
+
+def _nontrivial(e):
+    return e["res"] != "ok" or e["recv_post"] != e["pre"] or not e["same"]
+
+
+def report_clauses(rep, result, prefixes):
+    for clause, (replay, detail) in result["bad"]:
+        if clause.startswith(tuple(prefixes)):
+            rep.violation(clause, replay, detail)
